@@ -851,8 +851,8 @@ fn c13_lunar(lo: i64, hi: i64, out: &mut Out) {
         }
       }
     }
-    // sexagenary year -> months -> days (every 7th year: each month walks ~30 days)
-    if y >= 2 && y <= 9997 && y % 7 == 0 {
+    // sexagenary year -> months -> days (every year)
+    if y >= 2 && y <= 9997 {
       out.evaluations += 1;
       let sy = SixtyCycleYear::from_year(y);
       let ms = sy.get_months();
